@@ -549,8 +549,101 @@ theorem loc_timestamp (hq : c.q.noDupCheck = true) (a : Expr V) (hm : isMsel a =
     rw [eval_timestamp _ t a hm, hu]
     rfl
 
+/-- a scalar-typed expression always stops the traversal: its leaves are literals, `time()`,
+`pi()` or `scalar(..)`, none of which is distributive -/
+theorem scalar_stops (n : Nat) : ∀ (a : Expr V) (par : Option (Expr V)) (a' : Expr V) (st : Bool),
+    a.isScalar = true → traverseD n par a = some (a', st) → st = true
+  | .num v, par, a', st, _, h => by
+    rw [traverseD] at h <;> first | (intros; rename_i hh; cases hh) | skip
+    simp only [Option.some.injEq, Prod.mk.injEq] at h
+    exact h.2.symm
+  | .call fn args, par, a', st, hs, h => by
+    simp only [Expr.isScalar] at hs
+    rw [traverseD] at h
+    cases hr : traverseD.travArgs n (some (Expr.call fn args)) args with
+    | none => rw [hr] at h; cases h
+    | some r =>
+      obtain ⟨args', s2⟩ := r
+      rw [hr] at h
+      cases s2 with
+      | true =>
+        simp only [Option.some.injEq, Prod.mk.injEq] at h
+        exact h.2.symm
+      | false =>
+        simp only [Option.some.injEq] at h
+        unfold transformD at h
+        have hd : isDistributive (some (Expr.call fn args')) = false := by
+          simp only [isDistributive, hs, Bool.not_true, Bool.false_and]
+        simp only [hd, Bool.not_false, if_true, Prod.mk.injEq] at h
+        exact h.2.symm
+  | .bin op b m l r, par, a', st, hs, h => by
+    simp only [Expr.isScalar, Bool.and_eq_true] at hs
+    rw [traverseD] at h
+    cases hl : traverseD n (some (Expr.bin op b m l r)) l with
+    | none => rw [hl] at h; simp at h
+    | some rl =>
+      obtain ⟨l', ls⟩ := rl
+      cases hr : traverseD n (some (Expr.bin op b m l r)) r with
+      | none => rw [hl, hr] at h; simp at h
+      | some rr =>
+        obtain ⟨r', rs⟩ := rr
+        have hls := scalar_stops n l _ l' ls hs.1 hl
+        subst hls
+        rw [hl, hr] at h
+        simp only [Bool.true_or, if_true, Option.some.injEq, Prod.mk.injEq] at h
+        exact h.2.symm
+  | .neg e, par, a', st, hs, h => by
+    simp only [Expr.isScalar] at hs
+    rw [traverseD] at h
+    cases hr : traverseD n (some (Expr.neg e)) e with
+    | none => rw [hr] at h; cases h
+    | some r =>
+      rw [hr] at h
+      simp only [Option.map_some, Option.some.injEq, Prod.mk.injEq] at h
+      rw [← h.2]
+      exact scalar_stops n e _ r.1 r.2 hs hr
+  | .pos e, par, a', st, hs, h => by
+    simp only [Expr.isScalar] at hs
+    rw [traverseD] at h
+    cases hr : traverseD n (some (Expr.pos e)) e with
+    | none => rw [hr] at h; cases h
+    | some r =>
+      rw [hr] at h
+      simp only [Option.map_some, Option.some.injEq, Prod.mk.injEq] at h
+      rw [← h.2]
+      exact scalar_stops n e _ r.1 r.2 hs hr
+  | .paren e, par, a', st, hs, h => by
+    simp only [Expr.isScalar] at hs
+    rw [traverseD] at h
+    cases hr : traverseD n (some (Expr.paren e)) e with
+    | none => rw [hr] at h; cases h
+    | some r =>
+      rw [hr] at h
+      simp only [Option.map_some, Option.some.injEq, Prod.mk.injEq] at h
+      rw [← h.2]
+      exact scalar_stops n e _ r.1 r.2 hs hr
+  | .stepInv e, par, a', st, hs, h => by
+    simp only [Expr.isScalar] at hs
+    rw [traverseD] at h
+    cases hr : traverseD n (some (Expr.stepInv e)) e with
+    | none => rw [hr] at h; cases h
+    | some r =>
+      rw [hr] at h
+      simp only [Option.map_some, Option.some.injEq, Prod.mk.injEq] at h
+      rw [← h.2]
+      exact scalar_stops n e _ r.1 r.2 hs hr
+  | .str, _, _, _, hs, _ => by simp [Expr.isScalar] at hs
+  | .vsel _, _, _, _, hs, _ => by simp [Expr.isScalar] at hs
+  | .msel _ _, _, _, _, hs, _ => by simp [Expr.isScalar] at hs
+  | .subq _, _, _, _, hs, _ => by simp [Expr.isScalar] at hs
+  | .agg _ _ _ _, _, _, _, hs, _ => by simp [Expr.isScalar] at hs
+  | .aggP _ _ _ _ _, _, _, _, hs, _ => by simp [Expr.isScalar] at hs
+  | .coalesce _, _, _, _, hs, _ => by simp [Expr.isScalar] at hs
+  | .remote _ _, _, _, _, hs, _ => by simp [Expr.isScalar] at hs
+
 /-- a literal argument stops the loop over the arguments -/
-theorem travArgs_stops (n : Nat) (par : Option (Expr V)) (args : List (Expr V)) (h : args.any stopsArg = true)
+theorem travArgs_stops (n : Nat) (par : Option (Expr V)) (args : List (Expr V))
+    (h : (args.any fun a => stopsArg a || a.isScalar) = true)
     (args' : List (Expr V)) (st : Bool) (ht : traverseD.travArgs n par args = some (args', st)) : st = true := by
   induction args generalizing args' st with
   | nil => simp at h
@@ -585,7 +678,11 @@ theorem travArgs_stops (n : Nat) (par : Option (Expr V)) (args : List (Expr V)) 
                 cases ha
               | _ => cases hsa
             | _ => cases hsa
-        simp only [List.any_cons, hna, Bool.false_or] at h
+        have hns : a.isScalar = false := by
+          cases hsc : a.isScalar with
+          | false => rfl
+          | true => exact absurd (scalar_stops n a par a' false hsc ha) (by simp)
+        simp only [List.any_cons, hna, hns, Bool.false_or, Bool.or_self] at h
         cases hr : traverseD.travArgs n par as with
         | none => rw [hr] at ht; cases ht
         | some r2 =>
